@@ -1063,6 +1063,18 @@ impl ExecutionEngine {
                                 &mut results,
                             );
                         }
+                    } else if let Some(active_graph) = context.active_graph {
+                        // The enclosing GRAPH already fixed the active graph. A fresh
+                        // variable scope (a sub-select, the build side of a join) does not
+                        // carry the graph variable, but must still read only that graph.
+                        Self::scan_one_graph(
+                            database,
+                            pattern,
+                            active_graph,
+                            None,
+                            &row,
+                            &mut results,
+                        );
                     } else {
                         let mut visible_graphs: Vec<_> =
                             context.dataset.named_graphs.iter().copied().collect();
